@@ -455,6 +455,8 @@ pub struct SeqCfg {
 pub fn chunk_size_large() -> BoxedStrategy<u32> {
     prop_oneof![
         4 => pick(&[4095u32, 4096, 4097, 5000, 8191, 8192, 8193, 16_384, 65_535, 65_536]),
+        // above 64 KiB (an announced size must be the size actually used, however large)
+        2 => pick(&[65_537u32, 69_999, 70_000, 100_000, 0x0100_0000, 0x7FFF_FFFF]),
         2 => 4000u32..20_000,
         1 => chunk_size(),
     ]
